@@ -3,12 +3,16 @@ package refcfg
 import (
 	"encoding/base64"
 	"strconv"
+	"strings"
 )
 
 // Raw is a raw value as the documentation defines it: !binary:<base64>, !null, !empty.
 type Raw struct {
 	Kind  string `json:"kind"` // binary | null | empty
 	Bytes []byte `json:"bytes,omitempty"`
+	// Wrap > 0: the base64 text is broken into lines of that many characters (a YAML block scalar or a quoted
+	// string with line breaks, as wrapped base64 is usually pasted); the decoder skips the line breaks
+	Wrap int `json:"wrap,omitempty"`
 }
 
 func Bin(b []byte) *Raw { return &Raw{Kind: "binary", Bytes: b} }
@@ -23,7 +27,17 @@ func (r *Raw) Text() string {
 	case "empty":
 		return "!empty"
 	}
-	return "!binary:" + base64.StdEncoding.EncodeToString(r.Bytes)
+	b := base64.StdEncoding.EncodeToString(r.Bytes)
+	if r.Wrap > 0 {
+		var sb strings.Builder
+		for len(b) > r.Wrap {
+			sb.WriteString(b[:r.Wrap] + "\n")
+			b = b[r.Wrap:]
+		}
+		sb.WriteString(b + "\n")
+		b = sb.String()
+	}
+	return "!binary:" + b
 }
 
 // Value is the byte string the documentation says the spelling denotes.
